@@ -247,7 +247,7 @@ class Table:
 
     def __init__(self, alphabet):
         self.alphabet = alphabet
-        tag = str(abs(hash(alphabet)) % 10 ** 8)
+        tag = str(__import__("zlib").crc32(repr(alphabet).encode()))
         self.INf = z3.Function("IN_" + tag, z3.IntSort(), z3.BoolSort())
         self.IDXf = z3.Function("IDX_" + tag, z3.IntSort(), z3.IntSort())
         self.CHf = z3.Function("CH_" + tag, z3.IntSort(), z3.IntSort())
